@@ -2,14 +2,21 @@
 
 Histories: a `new ty=sv|ipv|stk cap=N kind=int|nt` line, then operation lines on up to four live
 objects (`obj=k`, `other=j`).  After every line all four objects are observed through the public API
-(size, empty, full, elements in order, front/back, operator[], reverse and const iteration) and compared
+(size, empty, full, elements in order, front/back, operator[], data(), reverse and const iteration, storage inside the
+object) and compared
 with the Lean model (R1), with the Lean spec (R3) and the spec with libstdc++ (R2).  A line is valid when its
 documented precondition holds in the *spec* state (Tetl.C01.Spec.valid, the hypothesis of history_refines): an object
 the standard leaves unspecified (moved-from) only takes operations without a precondition on its contents."""
 import itertools
+import os
 import random
+import sys
 
+import lib
 from lib import Case, fmt_list
+
+sys.path.insert(0, os.path.join(lib.VERIF, "gen"))
+import sizetype  # noqa: E402
 
 PROP = "C01"
 DRIVER = "drv-c01"
@@ -22,14 +29,19 @@ SOURCES = ["include/etl/_vector/static_vector.hpp", "include/etl/_inplace_vector
            "include/etl/_algorithm/remove_if.hpp", "include/etl/_algorithm/find_if.hpp",
            "include/etl/_algorithm/equal.hpp", "include/etl/_algorithm/lexicographical_compare.hpp",
            "include/etl/_type_traits/smallest_size_t.hpp"]
-RULE = ("exhaustive one-step box: static_vector of capacity 0..3 (int and a non-trivial class), every content state over "
+RULE = ("exhaustive one-step box: static_vector of capacity 0..3 (int, a non-trivial class, and a handle class whose move "
+        "assignment empties its source and has no self test), every content state over "
         "the values {0,1,2}, every member with every position / count / value / overload; every ordered pair of content "
         "states for copy/move construction and assignment, swap (member, free, self) and the six relational operators, each "
-        "copy followed by changes of the source and of the copy; inplace_vector (the members it has) and stack likewise at "
-        "capacity 0..3; the member inventory (api_member) of all three types at capacity 0 and 4; deterministic walks across "
+        "copy followed by two rounds of changes of the source and of the copy; inplace_vector (the members it has) and stack "
+        "likewise at capacity 0..3 (int and the non-trivial class); the member inventory (api_member) of all three types at "
+        "capacity 0 and 4; the size type at both sides of every threshold of the smallest_size_t chain (api_width: 254/255/256, "
+        "65534/65535/65536, 2^32-2/2^32-1/2^32, 2^63-1) and the widths of the types it names (api_abi); deterministic walks across "
         "the size-type boundary at capacities 254/255/256 (fill to capacity-1, to capacity, one more try, back, insert/erase at "
         "both ends, copy, compare, swap); plus seeded random histories of up to 40 operations on four live objects at "
-        "capacities {0,1,2,3,4,7} and of up to 10 operations from a nearly full vector at {254,255,256}.  Beyond capacity 3 "
+        "capacities {0,1,2,3,4,7}, random interleaved histories (object 0 := copy of object 1, then 2..16 single-object "
+        "operations addressed to the source or the copy at random: the hypothesis shape of copy_independent) at capacities "
+        "1..7, and histories of up to 10 operations from a nearly full vector at {254,255,256}.  Beyond capacity 3 "
         "nothing is exhaustive.  A line is generated only if it is valid by Tetl.C01.Spec.valid (precondition in the spec "
         "state; moved-from objects only take operations without a precondition on their contents).  A history is "
         "non-trivial when some object is non-empty after some step; distinct = distinct case text.")
@@ -42,7 +54,10 @@ ASSUMPTIONS = ["std::vector / std::stack of libstdc++ 12 are the reference for s
                "state the spec column of the whole line is masked (R2/R3 resume once the object is re-specified)",
                "std::inplace_vector's member list is taken from the synopsis [inplace.vector] (libstdc++ 12 does not ship it): "
                "Spec.offers .ipv = every operation of the property's list"]
-TRUSTED = ["hand model Tetl/C01/Model.lean + Step.lean tied to the source by the correspondence run (R1) on every run",
+TRUSTED = ["hand model Tetl/C01/Model.lean + Step.lean + Observe.lean tied to the source by the correspondence run (R1) on every run",
+           "gen/sizetype.py (text-level extractor of the smallest_size_t chain, the storage selection and the size-type "
+           "aliases; anything it cannot parse is an error; its result is cross-checked on every run: api_bits / api_width "
+           "compare the generated chain with sizeof of the real type, api_abi the assumed widths of the named types)",
            "spec Tetl/C01/Spec.lean validated against libstdc++ (R2) on every run"]
 _P = "Tetl.C01.Props."
 _STEP = [_P + "step_refines", _P + "step_refines_spec", _P + "history_refines"]
@@ -57,25 +72,54 @@ THEOREMS = {
     "erase": _STEP + [_P + "eraseRange_refines"], "erase_range": _STEP + [_P + "eraseRange_refines"],
     "resize": _STEP, "resize_val": _STEP, "assign_fill": _STEP, "assign_range": _STEP, "clear": _STEP,
     "ctor_n": _STEP, "ctor_n_val": _STEP, "ctor_range": _STEP,
-    "erase_if": _STEP + [_P + "eraseIf_refines"], "erase_val": _STEP + [_P + "eraseIf_refines"],
+    "erase_if": _STEP + [_P + "eraseIf_refines", _P + "eraseIf_keeps_handles"],
+    "erase_val": _STEP + [_P + "eraseIf_refines", _P + "eraseIf_keeps_handles"],
     "cmp": _STEP + [_P + "relOps_refines"], "swap": _STEP + [_P + "swap_refines"], "swap_free": _STEP + [_P + "swap_refines"],
-    "copy_ctor": _STEP, "copy_assign": _STEP, "move_ctor": _STEP,
-    "move_assign": _STEP,
+    "copy_ctor": _STEP + [_P + "copy_independent", _P + "interleave_projection", _P + "interleave_ok"],
+    "copy_assign": _STEP + [_P + "interleave_projection", _P + "interleave_ok"],
+    "move_ctor": _STEP + [_P + "moved_from_static_vector", _P + "moved_from_inplace_vector", _P + "moved_from_usable"],
+    "move_assign": _STEP + [_P + "moved_from_static_vector", _P + "moved_from_self", _P + "moved_from_usable"],
+    "dump": [_P + "observers_refine", _P + "observers_refine_ipv_stk", _P + "observers_zero_capacity"],
     "try_push": _STEP + [_P + "tryPush_full"], "try_push_rv": _STEP + [_P + "tryPush_full"],
     "try_emplace": _STEP + [_P + "tryPush_full"], "unchecked_push": _STEP, "unchecked_push_rv": _STEP,
     "unchecked_emplace": _STEP,
-    "api_bits": [_P + "size_fits", _P + "setSize_never_truncates"],
+    "api_bits": [_P + "size_fits", _P + "setSize_never_truncates", _P + "size_type_chain_sound", _P + "size_type_closed",
+                 _P + "size_type_minimal_partial", _P + "size_type_minimal_counterexample", _P + "minBits_spec",
+                 _P + "storage_selection_as_modelled"],
+    "api_width": [_P + "size_fits", _P + "size_type_chain_sound", _P + "size_type_closed", _P + "size_type_minimal_partial",
+                  _P + "size_type_minimal_counterexample", _P + "minBits_spec"],
+    "api_abi": [_P + "size_type_chain_sound"],
     "new": [_P + "initSize_partial", _P + "initSize_counterexample", _P + "history_refines_init"],
     "api_assign": [_P + "ipv_assign_unsupported"],
     "api_member": [_P + "ipv_step_partial", _P + "ipv_missing_counterexample", _P + "ipv_missing_members",
                    _P + "ipv_present_members"],
-    # facts that hold by the representation of the model (separate immutable lists); NOT evidence for the clause
-    # "a copy is independent of its source", which is observed by the harness (see UNPROVED_OBSERVED)
+    # building blocks of copy_independent / interleave_projection (frame facts of the system model)
     "structural": [_P + "unary_frame_structural", _P + "copy_value_frame_structural"],
 }
 _STEP += [_P + "history_refines_modelstate", _P + "validHist_validRun"]
 SEARCH_CAP = 300000
 MOVED = 9999
+EMPTIED = 9998
+GENSIZE_LEAN = os.path.join(lib.LEAN, "Tetl", "C01", "GenSize.lean")
+# capacities at which the harness instantiates static_vector<HD, N> (C01_HD_CAPS in harness/c01.cpp)
+HD_CAPS = (0, 1, 2, 3, 4, 7)
+# the thresholds of the smallest_size_t chain: the selected type is not the smallest one there (known finding)
+WIDTH_CAPS = [0, 1, 254, 255, 256, 65534, 65535, 65536, 4294967294, 4294967295, 4294967296, 9223372036854775807]
+THRESHOLDS = {255, 65535, 4294967295}
+
+
+def regenerate(ctx):
+    """tie T: the conditional_t chain of smallest_size_t<N>, the storage selection of static_vector and the aliases of the
+    size type are re-extracted from the headers of the tree under check into lean/Tetl/C01/GenSize.lean"""
+    try:
+        info = sizetype.extract(lib.REPO)
+    except (sizetype.ParseError, OSError, ValueError) as e:
+        return {"error": "gen/sizetype.py: %s" % e}
+    changed = sizetype.emit(info, GENSIZE_LEAN)
+    return {"generated_file": os.path.relpath(GENSIZE_LEAN, lib.VERIF), "hash": lib.file_hash(GENSIZE_LEAN),
+            "changed": changed, "size_type_chain": [l["src"] + " -> " + l["type_text"] for l in info["chain"]]
+            + ["else -> " + info["fallback_text"]],
+            "storage_selection": ["%s -> %s" % ct for ct in info["storage"]] + ["else -> " + info["storage_else"]]}
 
 ALL_CAPS = [0, 1, 2, 3, 4, 7, 254, 255, 256]
 STK_CAPS = [0, 1, 3, 4]
@@ -188,6 +232,25 @@ def independence_lines(ty, cap, d1):
         out.append("pop obj=0")
     if ty != "ipv":
         out.append("cmp obj=0 other=1")
+    # a second round, alternating: source, copy, source, copy (sizes are tracked: every line stays valid)
+    ns, nc = (n - 1 if n > 0 else 0) + (1 if (n < cap or n > 0) else 0), (n + 1 if n < cap else (n - 1 if n > 0 else 0))
+    if ty == "sv":
+        if ns > 0:
+            out.append("erase obj=1 pos=0")
+            ns -= 1
+        if nc < cap:
+            out.append("insert obj=0 pos=0 x=6")
+            nc += 1
+        if ns < cap:
+            out.append("insert_fill obj=1 pos=%d n=1 x=4" % ns)
+            ns += 1
+        out.append("erase_if obj=0 m=2 r=0")
+        out.append("dump obj=1")
+    else:
+        if ns > 0:
+            out.append("pop obj=1")
+        if nc < cap:
+            out.append("%s obj=0 x=3" % push)
     return out
 
 
@@ -218,7 +281,8 @@ def new_line(ty, cap, kind, init=None):
 
 def exhaustive(add, thorough):
     for ty in ("sv", "stk", "ipv"):
-        for kind in ("int", "nt"):
+        # the handle kind (move assignment empties its source, no self test) exists for static_vector only
+        for kind in (("int", "nt", "hd") if ty == "sv" else ("int", "nt")):
             caps = [0, 1, 2, 3] if ty != "stk" else [0, 1, 3]
             for cap in caps:
                 head = new_line(ty, cap, kind)
@@ -228,6 +292,8 @@ def exhaustive(add, thorough):
                     for op in unary_ops_exhaustive(ty, cap, d):
                         add([head] + pre + [op], "%s/%s" % (ty, op.split(" ")[0]))
                 pair_states = states if (cap <= 2 or thorough) else [s for s in states if 0 not in s or len(s) <= 1]
+                if kind == "hd" and not thorough:
+                    pair_states = [s for s in pair_states if 2 not in s]
                 for d0 in pair_states:
                     for d1 in pair_states:
                         pre = build(ty, d0, 0) + build(ty, d1, 1)
@@ -267,6 +333,10 @@ def exhaustive(add, thorough):
                 for m in ALL_MEMBERS:
                     add(["api_member ty=%s cap=%d kind=%s member=%s %s" % (ty, cap, kind, m, MEMBER_ARGS)],
                         "%s/api_member" % ty)
+    # the size type alone: both sides of every threshold of the chain, far beyond the capacities that are instantiated
+    for n in WIDTH_CAPS:
+        add(["api_width cap=%d" % n], "api_width")
+    add(["api_abi"], "api_abi")
     boundary_histories(add)
 
 
@@ -281,10 +351,27 @@ class Mirror:
         self.unspec = [False] * 4
 
     def mvd(self, d):
-        return [MOVED] * len(d) if self.kind == "nt" else list(d)
+        if self.kind == "nt":
+            return [MOVED] * len(d)
+        if self.kind == "hd":
+            return [EMPTIED] * len(d)
+        return list(d)
 
 
-def rand_history(rnd, ty, cap, kind, length, big):
+UNARY_CANDS = {
+    "sv": ["push", "push_rv", "emplace_back", "insert", "insert_rv", "emplace", "insert_fill", "insert_range", "move_insert",
+           "pop", "erase", "erase_range", "resize", "resize_val", "assign_fill", "assign_range", "clear", "erase_val",
+           "erase_if", "ctor_n", "ctor_n_val", "ctor_range", "dump"],
+    "stk": ["push", "push", "push_rv", "emplace_back", "pop", "pop", "dump"],
+    "ipv": ["try_push", "try_push", "try_push_rv", "try_emplace", "unchecked_push", "unchecked_push_rv",
+            "unchecked_emplace", "pop", "pop", "clear"],
+}
+
+
+def rand_history(rnd, ty, cap, kind, length, big, interleave=False):
+    """interleave=True: the shape of Tetl.C01.Props.copy_independent — object 1 is given a value, object 0 becomes a copy of
+    it (copy construction, or copy assignment where the type has it), then only single-object operations follow, addressed
+    to the source or to the copy in random interleaving (Tetl.C01.allUnary)"""
     m = Mirror(ty, cap, kind)
     lines = [new_line(ty, cap, kind, rnd.choice(["default", "value"]) if ty != "ipv" else "value")]
     tags = set()
@@ -315,7 +402,16 @@ def rand_history(rnd, ty, cap, kind, length, big):
         for i in range(n0):
             emit("unchecked_push x=%d" % (i % 10), "unchecked_push")
         m.o[0] = [i % 10 for i in range(n0)]
-    nobj = 2 if big else 4
+    nobj = 2 if (big or interleave) else 4
+    if interleave:
+        n1 = rnd.randint(0, cap)
+        d1 = [rnd.choice([0, 1, 2, 3, 5, 8]) for _ in range(n1)]
+        for ln in build(ty, d1, 1):
+            emit(ln, ln.split(" ")[0])
+        m.o[1] = list(d1)
+        how = rnd.choice(["copy_ctor", "copy_assign"]) if ty != "ipv" else "copy_ctor"
+        emit("%s obj=0 other=1" % how, how)
+        m.o[0] = list(d1)
     for _ in range(length):
         k = rnd.randrange(nobj)
         d = m.o[k]
@@ -345,6 +441,8 @@ def rand_history(rnd, ty, cap, kind, length, big):
         else:
             cands = ["try_push", "try_push", "try_push_rv", "try_emplace", "unchecked_push", "unchecked_push_rv",
                      "unchecked_emplace", "pop", "clear", "copy_ctor", "move_ctor"]
+        if interleave:
+            cands = UNARY_CANDS[ty]
         op = rnd.choice(cands)
         j = rnd.randrange(nobj)
         o = "obj=%d" % k
@@ -444,7 +542,7 @@ def rand_history(rnd, ty, cap, kind, length, big):
             emit("move_ctor %s other=%d" % (o, j), op)
             m.o[k], m.unspec[k] = list(m.o[j]), m.unspec[j]
             if ty == "ipv":
-                m.o[j] = [] if kind == "nt" else m.o[j]
+                m.o[j] = [] if kind != "int" else m.o[j]
             else:
                 m.o[j] = m.mvd(m.o[j])
             m.unspec[j] = True
@@ -486,11 +584,20 @@ def generate(tier, seed):
     for i in range(nrand):
         ty = rnd.choice(["sv", "sv", "sv", "stk", "ipv"])
         cap = rnd.choice([0, 1, 2, 3, 4, 4, 7, 7] if ty != "stk" else STK_CAPS)
-        kind = rnd.choice(["int", "nt"])
+        kind = rnd.choice(["int", "nt", "hd"] if ty == "sv" else ["int", "nt"])
         lines, tags = rand_history(rnd, ty, cap, kind, rnd.randint(1, 40), False)
         add(lines, "%s/rand" % ty)
         for t in tags:
             dist["rand-op/" + t] = dist.get("rand-op/" + t, 0) + 1
+    # a copy and its source, changed in random interleaving (the hypothesis shape of copy_independent)
+    for i in range(40000 if thorough else 2500):
+        ty = rnd.choice(["sv", "sv", "stk", "ipv"])
+        cap = rnd.choice([1, 2, 3, 4, 4, 7, 7] if ty != "stk" else [1, 3, 4])
+        kind = rnd.choice(["int", "nt", "hd"] if ty == "sv" else ["int", "nt"])
+        lines, tags = rand_history(rnd, ty, cap, kind, rnd.randint(2, 16), False, interleave=True)
+        add(lines, "%s/interleave" % ty)
+        for t in tags:
+            dist["interleave-op/" + t] = dist.get("interleave-op/" + t, 0) + 1
     for i in range(nbig):
         ty = rnd.choice(["sv", "sv", "ipv"])
         cap = rnd.choice([254, 255, 256])
@@ -522,9 +629,20 @@ def self_check(cases):
             out = subprocess.run([exe], stdin=fin, stdout=subprocess.PIPE, text=True).stdout.split("\n")
     finally:
         os.unlink(path)
-    lines = [ln for c in cases for ln in c.lines]
-    bad = [(lines[i], o) for i, o in enumerate(out[:len(lines)]) if o.startswith("invalid") or o.startswith("bad-op")
-           or o.startswith("err:")]
+    # `err:pre(size_type truncates the size)` is not a generator defect: the size type of the model is the chain extracted
+    # from the header under check (GenSize.lean); for a chain that selects too narrow a type the model reports the truncation
+    # on a perfectly valid line (size_fits no longer holds); that line and the rest of its history go on to the comparison
+    # with the implementation
+    bad, pos = [], 0
+    for c in cases:
+        truncated = False
+        for ln in c.lines:
+            o = out[pos] if pos < len(out) else ""
+            pos += 1
+            if o.startswith("err:") and "size_type truncates the size" in o.split("\t")[0]:
+                truncated = True        # from here on model and spec state of this history drift apart
+            elif not truncated and (o.startswith("invalid") or o.startswith("bad-op") or o.startswith("err:")):
+                bad.append((ln, o))
     if bad:
         raise lib.MachineryError("generator produced %d lines that violate a precondition or make the model fail, "
                                  "first: %r" % (len(bad), bad[0]))
@@ -553,6 +671,17 @@ def classify(case, k, row):
         return None
     if ln.startswith("new ty=ipv") and "init=default" in ln and " cap=0 " not in ln:
         return "F-C01-inplace-vector-default-init"
+    if ln.startswith("api_bits ") or ln.startswith("api_width "):
+        # class: the capacity is one of the thresholds of the chain (Tetl.C01.Props.size_type_minimal_partial) and the
+        # selected width is indeed larger than the smallest one that fits
+        try:
+            cap = int(f.get("cap", ""))
+        except ValueError:
+            return None
+        min_bits = 8 if cap < 2 ** 8 else 16 if cap < 2 ** 16 else 32 if cap < 2 ** 32 else 64
+        if cap in THRESHOLDS and row.model.startswith("bits=") and row.model[5:].isdigit() \
+                and int(row.model[5:]) > min_bits and row.spec == "bits=%d" % min_bits:
+            return "F-C01-size-type-not-smallest-at-threshold"
     return None
 
 
@@ -573,48 +702,74 @@ LEVEL_TEXT = ("Proved in Lean 4 (no size bound, all capacities < 2^64, induction
               "size <= capacity and the capacity itself, and produces exactly the contents, iterator offset, "
               "count, pointer and the six comparison results that the list semantics of std::vector prescribe; "
               "try_push_back on a full inplace_vector returns null and changes nothing. "
-              "inplace_vector: the same theorem covers ONLY the members etl::inplace_vector has (try_/unchecked_ push and "
+              "Observers (observers_refine, observers_refine_ipv_stk, observers_zero_capacity): size/empty/full/capacity/max_size, "
+              "the begin..end and rbegin..rend walks, data()[i], operator[] / front / back / top through detail::index and its "
+              "contract check are model functions of their own and equal length / = [] / length = capacity / the list / its "
+              "reverse / list[i] / head / getLast. "
+              "'A copy is independent of its source' (copy_independent, interleave_projection, interleave_ok): for every "
+              "interleaved history of single-object operations after a copy, the copy ends with the contents and results of its "
+              "own operations run alone from the copied value, the source with those of its own operations run from the state "
+              "before the copy; this is a theorem about the model's step function (whose objects are separate lists) - that the "
+              "C++ objects own their storage is observed on the same interleaved histories (data() lies inside the object, all "
+              "four objects dumped after every line, ASan). "
+              "erase_if / erase(c, value) (eraseIf_refines for every element kind, eraseIf_keeps_handles): the element move "
+              "assignment of remove_if is modelled with its effect on the source and on a self-assignment; kept elements keep "
+              "their value, no element is move-assigned to itself (the handle element kind makes that observable). "
+              "Moved-from objects (moved_from_static_vector / _inplace_vector / _self / _usable): static_vector keeps the size "
+              "with moved-from elements, inplace_vector of a non-trivial type is emptied, of a trivial type untouched; all stay "
+              "within capacity and accept every operation without a precondition on the contents. "
+              "Size type: the conditional_t chain of smallest_size_t is extracted from the header on every run "
+              "(lean/Tetl/C01/GenSize.lean); size_fits is proved about that chain (every capacity < 2^64 fits the selected "
+              "type, for any chain whose links are sound); the selected type is the smallest of 8/16/32/64 bits that fits "
+              "EXCEPT at capacities 255, 65535, 2^32-1 (size_type_minimal_partial / _counterexample, known finding "
+              "F-C01-size-type-not-smallest-at-threshold); the storage selection of static_vector (capacity 0 / trivial / "
+              "non-trivial) and the aliases of the size type are pinned by storage_selection_as_modelled. "
+              "inplace_vector: the history theorem covers ONLY the members etl::inplace_vector has (try_/unchecked_ push and "
               "emplace, pop_back, clear, copy and move construction); push_back/emplace_back, insert, erase, resize, assign, the "
               "sized and range constructors, assignment, swap, erase/erase_if and the relational operators of "
               "std::inplace_vector do not exist in etl::inplace_vector, so that part of the property's histories is not "
               "covered for this type (known findings F-C01-inplace-vector-missing-members and -not-assignable; the inventory is "
               "re-derived from the headers by compile-time probes on every run). "
-              "NOT proved, observed only: 'a copy is independent of its source' (the model's objects are separate immutable "
-              "lists, sharing cannot be expressed in it; the harness copies, then overwrites / shrinks / grows the source and "
-              "changes the copy, dumping both after every line, under ASan). "
               "The model mirrors the C++ loop by "
               "loop (insert = append then the swap-cycle rotate; erase = move down, destroy, shrink; erase_if = remove_if + "
               "erase) and is compared with the implementation on every run under ASan/UBSan: exhaustively for all content "
               "states over three values at capacity 0..3 with every member, position, count and overload and every pair of "
-              "states for copy/move/swap/compare, for int and a non-trivial class (both storage implementations), plus "
-              "random 40-step histories at capacities up to 7, and deterministic walks plus random 10-step histories at the "
+              "states for copy/move/swap/compare, for int, a non-trivial class (both storage implementations) and a handle "
+              "class (static_vector), plus random 40-step histories and interleaved copy/source histories at capacities up to 7, "
+              "and deterministic walks plus random 10-step histories at the "
               "254/255/256 size-type boundary; the spec is validated against libstdc++ on the same histories.")
 LEVEL_NOTE = ("Trusted: Lean kernel + propext/Classical.choice/Quot.sound; fidelity of the hand model outside the explored "
-              "histories; element types modelled at the value level (object lifetime is C03's subject); g++-12 with "
+              "histories; the extractor gen/sizetype.py and the width table CTy.bits (LP64; compared with sizeof on every run); "
+              "element types modelled at the value level (object lifetime is C03's subject); g++-12 with "
               "ASan/UBSan; libstdc++ as oracle for R2 (std::vector + capacity test as stand-in for std::inplace_vector). Values "
               "the standard leaves unspecified (moved-from vectors) are masked on the spec side only, and mask the spec column "
-              "of the whole line while they exist. history_refines_modelstate additionally covers histories that go on using "
-              "a moved-from object with the contents etl leaves in it. unary_frame_structural / copy_value_frame_structural hold by the "
-              "representation of the model and are not evidence about aliasing. Known: default-initialised inplace_vector has "
-              "an indeterminate size (F-C01-inplace-vector-default-init). Members listed in coverage.correspondence_only have "
+              "of the whole line while they exist; what etl leaves there is stated by the moved_from_* theorems and compared "
+              "model vs implementation. history_refines_modelstate additionally covers histories that go on using "
+              "a moved-from object with the contents etl leaves in it. copy_independent / interleave_projection are statements "
+              "about the model (separate lists per object): sharing of storage is excluded on the C++ side by observation, not "
+              "by proof. In erase(first,last) the moved-from state of the sources of etl::move is not modelled (those elements "
+              "are destroyed or overwritten before anything can observe them; dst < src by construction). Known: "
+              "default-initialised inplace_vector has an indeterminate size (F-C01-inplace-vector-default-init); the size type "
+              "is one step too wide at capacities 255 / 65535 / 2^32-1. Members listed in coverage.correspondence_only have "
               "no theorem.")
 # members modelled and compared on every run but without a Lean theorem of their own
 CORRESPONDENCE_ONLY = [
-    "observers begin/end/cbegin/cend/rbegin/rend/data/operator[]/front/back/size/empty/full/capacity/max_size, const and "
-    "non-const (the model's state *is* the observable list; the harness cross-checks all of them on every line)",
-    "width of smallest_size_t<N> (api_bits: compared with the model's threshold chain; size_fits is proved about the model)",
+    "cbegin/cend/crbegin/crend and the const overloads of the observers (same bodies as the non-const ones that are modelled "
+    "in Observe.lean; the harness cross-checks them on every line: @cbegin, @cidx)",
     "default- vs value-initialisation of a new object (initSize: compared on `new ... init=` lines)",
     "stack::emplace / static_vector::emplace_back return type (void, std returns a reference): not compared",
-    "moved-from contents of a vector (model: mvd; spec: unspecified) — model vs implementation only",
     "member inventory (api_member: `supports` of the model against requires-expression probes of the tetl type, Spec.offers "
     "against the std type)",
+    "addresses: front()/back() refer to the first/last element, data() == begin(), the storage lies inside the object "
+    "(@fbaddr, @data, @inl flags of the harness; the model has no addresses)",
 ]
 # clauses of the property that no theorem carries: checked on the real code on every run, nothing more
 UNPROVED_OBSERVED = [
-    "'a copy is independent of its source': after every copy construction / copy assignment of the exhaustive box the source "
-    "is overwritten in place (static_vector), shrunk and grown, then the copy is changed; all four objects are dumped through "
-    "the public API after every line and compared with the model, the spec and std::vector; random histories interleave "
-    "copies with every other operation. The Lean model keeps objects as separate lists, so it cannot express sharing",
+    "'a copy is independent of its source' on the C++ side: copy_independent is proved about the model, whose objects are "
+    "separate lists; that a static_vector / inplace_vector / stack object owns its storage (no sharing after a copy) is "
+    "observed: data() lies inside the object (@inl), after every copy of the exhaustive box the source is overwritten in place, "
+    "shrunk, grown, then the copy is changed, two rounds; random interleaved copy/source histories; all four objects are "
+    "dumped through the public API after every line and compared with the model, the spec and std::vector",
     "inplace_vector members that std::inplace_vector has and etl::inplace_vector lacks (insert, erase, resize, assign, swap, "
     "erase_if, relational operators, push_back, sized/range constructors, assignment): nothing to run; their absence is "
     "re-observed on every run (api_member) and reported as known finding",
